@@ -89,6 +89,7 @@ func buildSchemas() {
 	simFile = buildSimFile()
 	schemas["sim"] = newSchema("sim", simFile.Services().ByName("SimService"))
 	schemas["sim2"] = newSchema("sim2", simFile.Services().ByName("ParamService"))
+	schemas["bare"] = newSchema("bare", simFile.Services().ByName("BareService"))
 	installRESTRefs()
 }
 
@@ -157,6 +158,15 @@ func buildSimFile() protoreflect.FileDescriptor {
 					method("Bytes", pv, pv, false, false, httpRuleOpt(get("/p/v1/bytes/{bytes_value}/{int64_value}/{enum_value}"), 0)),
 					method("Del", pv, pv, false, false, httpRuleOpt(&annotations.HttpRule{Pattern: &annotations.HttpRule_Delete{Delete: "/p/v1/del/{uint64_value}/{timestamp}"}}, 0)),
 					method("Plain", pv, pv, false, false, nil),
+				},
+			},
+			{
+				// no annotations at all; one method name is a prefix of another
+				Name: proto.String("BareService"),
+				Method: []*descriptorpb.MethodDescriptorProto{
+					method("Ping", pv, pv, false, false, nil),
+					method("PingAll", pv, pv, false, false, nil),
+					method("Other", pv, pv, false, false, nil),
 				},
 			},
 		},
